@@ -11,7 +11,7 @@ from lib import dbcsnap
 from lib import matrices as M
 
 PID = "C05"
-EXTRA_PROPS = ("Num", "C05b", "C05c", "C05d", "C05e")
+EXTRA_PROPS = ("Num", "C05b", "C05c", "C05d", "C05e", "C05f")
 RULE = ("case 'rt' = a generated matrix of DBC-expressible content (identifier names incl. names longer than 32 characters, ECU names "
         "of >= 2 characters, standard/extended ids, CAN FD and J1939 frames, simple and extended multiplexing, float signals, limits, "
         "start values inside the limits and on the raw grid, cycle times, value tables with quotes, comments over several lines with "
@@ -22,10 +22,15 @@ RULE = ("case 'rt' = a generated matrix of DBC-expressible content (identifier n
         "equality of the two files, every path on which the normal forms (carrier attributes folded) differ. case 'file' = the frame "
         "section of that file (BO_/SG_ lines) against the Lean writer and reader of Model/DbcText.lean. cases 'sg'/'bo'/'val'/'tx'/'vt'/'mul'/'def'/'dd'/'ba'/'cm'/'vtab'/'grp' = one "
         "statement (SG_, BO_, VAL_, BO_TX_BU_, SIG_VALTYPE_, SG_MUL_VAL_, BA_DEF_, BA_DEF_DEF_, BA_ of user attributes on all levels, CM_ comments over one or several lines, VAL_TABLE_, SIG_GROUP_): the line "
-        "in the file against the Lean writer, and what the real reader makes of it alone against the Lean reader. Non-trivial = distinct case.")
-PARTIAL = ["the Lean model covers the frame section (BO_, SG_ with multiplex tags) at file level and VAL_ at statement level; comments, "
-           "attributes, definitions, senders, signal groups, SG_MUL_VAL_, EV_ and the reader's post-processing are decided by the "
-           "round-trip observation (S) only",
+        "in the file against the Lean writer, and what the real reader makes of it alone against the Lean reader. case 'whole' = the whole file - as "
+        "written (variant 0), with bad and stray lines inserted, also ones naming the file's own frames and signals (variant 1), with lines dropped, "
+        "repeated and the file cut inside a line (variant 2) - read by dbc.load, the matrix it has built when its line loop ends (before the "
+        "post-processing; taken without touching the reader, lib/dbcsnap.py) and the number of 'error with line no' against Model/DbcFile.lean readFile. "
+        "Non-trivial = distinct case.")
+PARTIAL = ["theorems: every statement kind parse(render) = id, the frame section and the whole file of one-line statements as a fold of effects "
+           "(Props/C05f); not carried by a theorem: that the fold of the effects of the statements dump emits gives back the matrix (lookups "
+           "succeed, nothing overwritten), the reader's post-processing (carrier attributes, long names, start values), EV_ statements and the "
+           "text encodings: decided by the round-trip observation (S) and, for the line loop, by the correspondence with the reader model",
            "the statement patterns are regular expressions in the source and deterministic tokenizers in the model; they are compared "
            "line by line, not derived"]
 ASSUMPTIONS = ["envelope: names unique within their first 32 characters; text without a backslash directly before a quote (the writer does "
@@ -34,7 +39,7 @@ ASSUMPTIONS = ["envelope: names unique within their first 32 characters; text wi
                "initial values on the raw grid inside the limits; float signals start at small dyadic values"]
 TRUSTED = ["Python re module; codecs", "harness normal form lib/dbcgen.py:norm (folds GenMsgCycleTime, GenSigCycleTime, GenSigStartValue, "
            "VFrameFormat, BusType, ProtocolType, System*LongSymbol)"]
-CORRESPONDENCE = "frame section lines and their reading == CanVerif.Dbc.writeFrames / readFrames / renderSg / parseSg / renderBo / parseBo / renderVal / parseVal"
+CORRESPONDENCE = "whole files (as written and damaged) read by dbc.load == CanVerif.Dbc.readFile; frame section lines and their reading == CanVerif.Dbc.writeFrames / readFrames / renderSg / parseSg / renderBo / parseBo / renderVal / parseVal"
 NSHARDS = {"quick": 16, "thorough": 16}
 
 FLAVOURS = [None] * 17 + ["quote_semicolon", "env_long", "long_ecu_prefix"]
